@@ -36,8 +36,11 @@ type jwsKey struct {
 	signer concr.Signer
 }
 
-func newJWSKey(kt concr.KeyType) jwsKey {
-	priv, pub, signer, err := concr.NewKeyPair(kt)
+func newJWSKey(kt concr.KeyType) jwsKey { return newJWSKeyShort(kt, "") }
+
+// newJWSKeyShort: a key whose x / y coordinate has a leading zero byte (fixed-width JWK encoding matters).
+func newJWSKeyShort(kt concr.KeyType, coord string) jwsKey {
+	priv, pub, signer, err := concr.NewKeyPairShort(kt, coord)
 	if err != nil {
 		ev.Fatal("key: %v", err)
 	}
@@ -102,7 +105,7 @@ func C09(c *ev.Ctx) {
 	payload := []byte(`{"deltaHash":"EiCfDWRnYlcD9EGA3d_5Z1AHu-iYqMbJ9nfiqdz5S8VDbg","updateKey":{"crv":"P-256","kty":"EC","x":"a","y":"b"}}`)
 	kits := map[int]*kit{}
 	for _, kt := range concr.KeyTypes {
-		k := &kit{signer: newJWSKey(kt), same: newJWSKey(kt), other: newJWSKey(concr.KeyTypes[(int(kt)+1)%5])}
+		k := &kit{signer: newJWSKeyShort(kt, []string{"x", "y", ""}[int(c.Seed+int64(kt))%3]), same: newJWSKeyShort(kt, "y"), other: newJWSKey(concr.KeyTypes[(int(kt)+1)%5])}
 		compact, err := jwsx.SignPayload(payload, k.signer.signer) // the library's own signing utility
 		if err != nil {
 			ev.Fatal("sign: %v", err)
@@ -240,7 +243,7 @@ func C09(c *ev.Ctx) {
 		k := kits[int(kt)]
 		parts := strings.Split(k.genuine, ".")
 		for _, cls := range mal.Compact {
-			for _, s := range malformedCompact(cls, parts, kt) {
+			for _, s := range malformedCompact(cls, parts, kt, k.signer.signer) {
 				res, msg := verifyJWS(s, k.signer.jwk)
 				calls++
 				if res != "reject" {
@@ -291,7 +294,27 @@ func ecdsaTwin(priv interface{}, sig []byte) []byte {
 	return append(append(out, pad...), sb...)
 }
 
-func malformedCompact(cls string, parts []string, kt concr.KeyType) []string {
+// malformedCompact realises a malformed-compact class.  For the header classes every variant comes twice: with the
+// genuine signature of the original header, and genuinely re-signed over the malformed header - so that only the header
+// rule itself can be the reason for the rejection.
+func malformedCompact(cls string, parts []string, kt concr.KeyType, signer concr.Signer) []string {
+	out := malformedCompact0(cls, parts, kt)
+	if signer == nil || !strings.HasPrefix(cls, "header") && cls != "b64NotBoolean" {
+		return out
+	}
+	for _, v := range out {
+		seg := strings.Split(v, ".")
+		if len(seg) != 3 {
+			continue
+		}
+		if sig, err := signer.Sign([]byte(seg[0] + "." + seg[1])); err == nil {
+			out = append(out, seg[0]+"."+seg[1]+"."+b64e(sig))
+		}
+	}
+	return out
+}
+
+func malformedCompact0(cls string, parts []string, kt concr.KeyType) []string {
 	h, p, s := parts[0], parts[1], parts[2]
 	hdr := func(j string) string { return b64e([]byte(j)) }
 	switch cls {
@@ -314,8 +337,11 @@ func malformedCompact(cls string, parts []string, kt concr.KeyType) []string {
 	case "headerNoAlg":
 		return []string{hdr(`{}`) + "." + p + "." + s, hdr(`{"kid":"x"}`) + "." + p + "." + s}
 	case "b64NotBoolean":
-		return []string{hdr(fmt.Sprintf(`{"alg":%q,"b64":"yes"}`, kt.Alg())) + "." + p + "." + s, hdr(fmt.Sprintf(`{"alg":%q,"b64":1}`, kt.Alg())) + "." + p + "." + s,
-			hdr(fmt.Sprintf(`{"alg":%q,"b64":null}`, kt.Alg())) + "." + p + "." + s}
+		var out []string
+		for _, v := range []string{`"yes"`, `"true"`, `1`, `0`, `null`, `[]`, `[true]`, `{}`, `""`} {
+			out = append(out, hdr(fmt.Sprintf(`{"alg":%q,"b64":%s}`, kt.Alg(), v))+"."+p+"."+s)
+		}
+		return out
 	case "emptyPayload":
 		return []string{h + ".." + s}
 	case "emptySignature":
